@@ -348,6 +348,17 @@ def run(chk):
             return c
         yield "Control.add_single", [np.kron(SX, SX) + 0j, np.kron(SY, SY.conj()) + 0j], mk_ctrl, \
             lambda ob: np.array(oqupy.compute_dynamics(oqupy.System(H), initial_state=rho, dt=0.1, num_steps=3, control=ob, progress_type="silent").states)
+
+        def mk_ctrl_t(a):
+            # several pre-measurement controls on one step: a time-stamped one with an integer-step one (step 1), two time-stamped ones (step 2)
+            c = oqupy.Control(2)
+            c.add_single(0.1, a[0])
+            c.add_single(1, a[1])
+            c.add_single(0.22, a[1])
+            c.add_single(0.18, a[0])
+            return c
+        yield "Control.add_single(time-stamped, sharing a step)", [np.kron(SX, SX) + 0j, 0.8 * np.kron(SY, SY.conj()) + 0.2 * np.eye(4)], mk_ctrl_t, \
+            lambda ob: np.array(oqupy.compute_dynamics(oqupy.System(H), initial_state=rho, dt=0.1, num_steps=3, control=ob, progress_type="silent").states)
         yield "AugmentedMPS(matrices)", [rho, rho.conj()], lambda a: oqupy.AugmentedMPS([a[0], a[1]]), lambda ob: tebd(ob, mk_chain(H, SX, SZ, SX))
         yield "AugmentedMPS(rank-3 gammas)", [rho.reshape(1, 4, 1), rho.conj().reshape(1, 4, 1)], lambda a: oqupy.AugmentedMPS([a[0], a[1]]), \
             lambda ob: tebd(ob, mk_chain(H, SX, SZ, SX))
